@@ -138,6 +138,8 @@ func c03(c *core.Ctx, r *core.Report) {
 	treeKeyRule(c, r, "R03.seenkey", "backward states with different outer callers are merged")
 	c03param(c, r)
 	apGrammarRule(c, r, "R03.apgrammar", "analysis/backtrace")
+	stopsRule(c, r, "R03.stops", "analysis/backtrace", 3)
+	edgeLoopRule(c, r, "R03.edgeloop", "analysis/backtrace", "Visitor.visit", 8)
 	ensureRule(c, r, "R03.ensure", "analysis/backtrace", "Visitor.visit", 8, "In", "Out")
 	memoRule(c, r, "R03.memo", func(fn *ssa.Function, rel string) bool { return rel == "analysis/backtrace" }, "stale traversal state hides traces")
 }
